@@ -295,12 +295,17 @@ func VerifyLemma(p *Program, lm *Lemma) *FuncReport {
 		// well-foundedness: requires must bound the induction variable below
 		x.obs = append(x.obs, &Obligation{Name: "lemma:" + lm.Name + "/induction-wf", Kind: "lemma", Func: "lemma:" + lm.Name,
 			Hyps: req, Goal: Ge(nv.T, Num(0)), Opaque: x.opaque, Watch: x.watch})
-		// induction hypothesis: the lemma at n-1 for all values of the other parameters
+		// induction hypothesis: the lemma at n-1, for the same values of the other parameters
+		// ("induction n generalizing": for all values of the other parameters)
 		ih := &SpecEnv{x: x, st: st, vars: map[string]*Val{}, pkg: lm.Pkg}
 		var vars []*Term
 		for _, prm := range lm.Params {
 			if prm.Name == lm.Induction {
 				ih.vars[prm.Name] = &Val{K: VInt, T: Sub(nv.T, Num(1))}
+				continue
+			}
+			if !lm.Generalize {
+				ih.vars[prm.Name] = env.vars[prm.Name]
 				continue
 			}
 			b := Bound("ih_"+prm.Name, specSort(prm.Type))
